@@ -306,7 +306,7 @@ def campaign(run: common.Run) -> None:
 
         check_history(run, h, fail)
 
-    common.drive(run, body, {"h": history_strategy(30 if q else 60)}, 180 if q else 1500, seed_salt=1, shrink=False, reruns=2)
+    common.drive(run, body, {"h": history_strategy(30 if q else 60)}, 180 if q else 600, seed_salt=1, shrink=False, reruns=2)
 
 
 def main(run: common.Run) -> None:
